@@ -1092,6 +1092,101 @@ pub fn terminal_biased() -> BoxedStrategy<String> {
         .boxed()
 }
 
+fn splitmix(state: &mut u64) -> u64 {
+    *state = state.wrapping_add(0x9E37_79B9_7F4A_7C15);
+    let mut z = *state;
+    z = (z ^ (z >> 30)).wrapping_mul(0xBF58_476D_1CE4_E5B9);
+    z = (z ^ (z >> 27)).wrapping_mul(0x94D0_49BB_1331_11EB);
+    z ^ (z >> 31)
+}
+
+/// A checkmate (or, with `stalemate`, a stalemate) of the king of `mated` standing on `ks`; for a
+/// mate the single checker is a piece of kind `kind`. Built by bounded randomized construction
+/// (all choices derived from `seed`) and accepted by the reference rules.
+pub fn construct_terminal(ks: u8, kind: P, mated: Side, stalemate: bool, seed: u64) -> Option<Pos> {
+    let att = mated.other();
+    let mut rng = seed ^ ((ks as u64) << 40) ^ ((kind as u64) << 48);
+    let pawn_ok = |s: u8| rank_of(s) != 0 && rank_of(s) != 7;
+    let blockers = [P::Pawn, P::Knight, P::Bishop, P::Rook, P::Pawn, P::Knight];
+    let extras = [P::Queen, P::Rook, P::Bishop, P::Knight, P::Pawn, P::Rook, P::Pawn];
+    for _ in 0..600 {
+        let mut p = Pos::empty();
+        p.sq[ks as usize] = Some((P::King, mated));
+        let mut cs: Option<u8> = None;
+        if !stalemate {
+            let cands: Vec<u8> = (0..64u8).filter(|&s| s != ks && (kind != P::Pawn || pawn_ok(s)) && p.piece_attacks(s, kind, att, ks)).collect();
+            if cands.is_empty() {
+                return None;
+            }
+            let c = cands[(splitmix(&mut rng) % cands.len() as u64) as usize];
+            p.sq[c as usize] = Some((kind, att));
+            cs = Some(c);
+        }
+        // the other king
+        let free_far: Vec<u8> = (0..64u8).filter(|&s| p.sq[s as usize].is_none() && !adjacent(s, ks) && s != ks).collect();
+        let ak = free_far[(splitmix(&mut rng) % free_far.len() as u64) as usize];
+        p.sq[ak as usize] = Some((P::King, att));
+        for f in 0..64u8 {
+            if !adjacent(f, ks) || p.sq[f as usize].is_some() {
+                continue;
+            }
+            if splitmix(&mut rng) % 10 < 5 {
+                let b = blockers[(splitmix(&mut rng) % blockers.len() as u64) as usize];
+                if b != P::Pawn || pawn_ok(f) {
+                    p.sq[f as usize] = Some((b, mated));
+                }
+            }
+        }
+        let n_extra = 1 + splitmix(&mut rng) % 4;
+        for _ in 0..n_extra {
+            let s = (splitmix(&mut rng) % 64) as u8;
+            let k = extras[(splitmix(&mut rng) % extras.len() as u64) as usize];
+            if p.sq[s as usize].is_none() && (k != P::Pawn || pawn_ok(s)) {
+                p.sq[s as usize] = Some((k, att));
+            }
+        }
+        p.side = mated;
+        p.rights = 0;
+        p.ep = None;
+        p.half = 0;
+        if p.consistent().is_err() {
+            continue;
+        }
+        let checkers: Vec<u8> = (0..64u8)
+            .filter(|&s| matches!(p.sq[s as usize], Some((k, c)) if c == att && p.piece_attacks(s, k, c, ks)))
+            .collect();
+        let good = if stalemate { checkers.is_empty() } else { checkers.len() == 1 && Some(checkers[0]) == cs };
+        if good && p.legal_moves().is_empty() {
+            return Some(p);
+        }
+    }
+    None
+}
+
+/// Terminal atlas: mates by every kind of checker and stalemates, on every king square, for both
+/// colours (where the construction succeeds; other terminal positions otherwise).
+pub fn terminal_atlas() -> BoxedStrategy<String> {
+    (0u8..64, 0u8..6, any::<bool>(), any::<u64>())
+        .prop_map(|(ks, what, white_mated, seed)| {
+            let mated = if white_mated { Side::White } else { Side::Black };
+            let kinds = [P::Pawn, P::Knight, P::Bishop, P::Rook, P::Queen];
+            let first = what as usize;
+            for i in 0..6 {
+                let w = (first + i) % 6;
+                let r = if w == 5 {
+                    construct_terminal(ks, P::Queen, mated, true, seed)
+                } else {
+                    construct_terminal(ks, kinds[w], mated, false, seed)
+                };
+                if let Some(p) = r {
+                    return p.fen();
+                }
+            }
+            "7k/5KQ1/8/8/8/8/8/8 b - - 0 1".to_string()
+        })
+        .boxed()
+}
+
 pub fn standard_fens() -> Vec<String> {
     STANDARD.iter().map(|x| x.1.to_string()).collect()
 }
